@@ -8,6 +8,9 @@ pub use vm::VerifVM;
 
 use std::sync::OnceLock;
 
+/// Fixed side-metadata base address used by the unit components (48 TiB; far from heap and stack).
+pub const SIDE_METADATA_BASE: usize = 0x3000_0000_0000;
+
 static MMTK_INSTANCE: OnceLock<Box<mmtk::MMTK<VerifVM>>> = OnceLock::new();
 
 /// Some unit components need the global state an MMTk instance sets up (side-metadata base
@@ -18,6 +21,8 @@ pub fn ensure_mmtk() -> &'static mmtk::MMTK<VerifVM> {
         let plan = std::env::var("VERIF_PLAN").unwrap_or_else(|_| "NoGC".to_string());
         assert!(b.set_option("plan", &plan));
         assert!(b.set_option("gc_trigger", "FixedHeapSize:67108864"));
+        // a fixed side-metadata base makes every metadata address deterministic (the models use it)
+        assert!(b.set_option("side_metadata_base_address", &SIDE_METADATA_BASE.to_string()));
         mmtk::memory_manager::mmtk_init::<VerifVM>(&b)
     })
 }
